@@ -80,9 +80,11 @@ def parse_overlay(paths):
                     section = "inject"
                 elif d == "@item":
                     a = arg.split(None, 2)
-                    ent = ov.items.setdefault(a[0], {"drop": False, "attrs": [], "used": False})
+                    ent = ov.items.setdefault(a[0], {"drop": False, "attrs": [], "used": False, "private": False})
                     if a[1] == "drop":
                         ent["drop"] = True
+                    elif a[1] == "private":
+                        ent["private"] = True
                     elif a[1] == "attr":
                         ent["attrs"].append(a[2])
                     else:
